@@ -161,6 +161,50 @@ def run_pair(case, chooser):
         rig.close()
 
 
+def run_samepath(case, chooser):
+    """two users with different base directories and different permissions use the *same virtual paths*: alice (rw,
+    base /ra) and bob (read-only, base /rb) both work in /w"""
+    sa, sb = scripts("w")[case["a"]], scripts("w")[case["b"]]
+    solo = case.get("solo")
+
+    def users(a, base):
+        return [a.User("alice", None, base_path=base / "ra"),
+                a.User("bob", None, base_path=base / "rb", permissions=[a.Permission("/", readable=True, writable=False)])]
+
+    t = tree()["a"]
+    rig = Rig(chooser=chooser, n_sessions=2, tree={"ra": {"w": dict(t)}, "rb": {"w": dict(t)}}, users=users,
+              server_kwargs={"block_size": B, "wait_future_timeout": 1})
+    try:
+        w = rig.world
+        chooser.active = False
+        for i, login in enumerate(("alice", "bob")):
+            if solo is None or solo == "ab"[i]:
+                rig.ev(i, "@connect")
+                rig.ev(i, "USER " + login)
+        ia = ib = 0
+        for who in case["order"]:
+            if who == 0:
+                e, ia = sa[ia], ia + 1
+            else:
+                e, ib = sb[ib], ib + 1
+            if solo is not None and solo != "ab"[who]:
+                continue
+            rig.ev(who, e)
+        w.settle()
+        rig.collect()
+        res = {}
+        snap = rig.snapshot()
+        for i, (d, root) in enumerate((("a", "ra"), ("b", "rb"))):
+            s = rig.sessions[i]
+            res[d] = {"transcript": norm(s.transcript), "tree": restrict(snap, root),
+                      "data": [c.received for c in s.peer.conns[1:]]}
+        res["trace"] = report.fp(w.net.trace)
+        res["events"] = w.net.n_events
+        return res
+    finally:
+        rig.close()
+
+
 def flat(tr):
     """order-insensitive view for fired runs: multiset of replies in order per session is still expected"""
     return tr
@@ -214,10 +258,24 @@ def _work(item):
     la, lb = len(scripts("a")[na]), len(scripts("b")[nb])
     seq = [0] * la + [1] * lb
     base = {"a": na, "b": nb, **extra}
-    solo_a = run_pair({**base, "order": seq, "solo": "a"}, Chooser())
-    solo_b = run_pair({**base, "order": seq, "solo": "b"}, Chooser())
+    runner = run_samepath if mode == "samepath" else run_pair
+    solo_a = runner({**base, "order": seq, "solo": "a"}, Chooser())
+    solo_b = runner({**base, "order": seq, "solo": "b"}, Chooser())
     try:
-        if mode == "after":
+        if mode == "samepath":
+            for o in orders(la, lb):
+                case = {**base, "order": o}
+                res = run_samepath(case, Chooser())
+                part.evaluations += 1
+                part.traces += 1
+                part.transitions += res["events"]
+                part.states.add(res["trace"])
+                part.nontrivial.add(res["trace"])
+                for p in compare(res, solo_a, solo_b, False):
+                    part.violation({"kind": p["kind"], "pair": [na, nb], "same_virtual_paths": True},
+                                   {"problem": p, "order": o}, replay={"samepath": case})
+                    break
+        elif mode == "after":
             # session A dies; *afterwards* session B must find everything as if A had never existed (limits of 1)
             case = {**base, "order": seq, "explore": True}
             bound, kinds = extra.get("bound", 1), ["early", "order"]
@@ -302,6 +360,12 @@ def build_items(tier):
         fired = pairs
     for na, nb in fired:
         items.append(("fired", na, nb, {"bound": 1, "cap": 1500 if tier == "quick" else 20000}))
+    # two users with different base directories and permissions on the same virtual paths
+    for na, nb in (("cwd", "cwd"), ("rename", "rename"), ("upload", "upload"), ("cwd", "rename"), ("upload", "cwd"),
+                   ("appe", "download-rest")):
+        la, lb = len(scripts("w")[na]), len(scripts("w")[nb])
+        if la + lb <= 14:
+            items.append(("samepath", na, nb, {}))
     # a session of a user with a connection limit of 1 dies in an awkward way; the next session of that user (and of
     # the server: limit 2 = this one plus the dead one) must behave exactly as if alone
     for na in ("die-noread", "die-mid-stor", "die-after-pasv", "die-list-noread"):
@@ -347,6 +411,15 @@ def run(tier, seed, t0):
 def replay(path):
     data = json.loads(open(path).read())
     rp = data["replay"]
+    if "samepath" in rp:
+        case = rp["samepath"]
+        la, lb = len(scripts("w")[case["a"]]), len(scripts("w")[case["b"]])
+        seq = [0] * la + [1] * lb
+        solo_a = run_samepath({**case, "order": seq, "solo": "a"}, Chooser())
+        solo_b = run_samepath({**case, "order": seq, "solo": "b"}, Chooser())
+        pr = compare(run_samepath(case, Chooser()), solo_a, solo_b, False)
+        print(json.dumps(pr, indent=1, default=repr))
+        return 1 if pr else 0
     case = rp["case"]
     la, lb = len(scripts("a")[case["a"]]), len(scripts("b")[case["b"]])
     seq = [0] * la + [1] * lb
